@@ -92,10 +92,12 @@ def finish(
 
     violations: list[Finding] = []
     known_hits: list[tuple[Finding, dict]] = []
+    seen_idents: set = set()
     for r in reports:
         for f in r.findings:
-            if f.info_only:
+            if f.info_only or f.ident() in seen_idents:
                 continue
+            seen_idents.add(f.ident())
             k = match_known(prop, f, known)
             if k:
                 known_hits.append((f, k))
